@@ -183,6 +183,12 @@ class Shim:
         if sf is not None and self.nmut == sf[0]:
             raise OSError(sf[1], os.strerror(sf[1]))
 
+    def after_mutation(self):
+        """SIGINT-like interruption: KeyboardInterrupt raised right after the k-th syscall-level mutation returned"""
+        ik = self.plan.get('interrupt')
+        if ik is not None and self.nmut == ik:
+            raise KeyboardInterrupt()
+
     def lib(self, name, args, fn):
         """record + possibly fault a library-boundary op issued by a trashcli frame"""
         self.nlib += 1
@@ -207,7 +213,7 @@ class Shim:
         except OSError as e:
             rec[2] = ['err', 'ShutilError' if isinstance(e, shutil.Error) else 'OSError', e.errno]
             raise
-        except (Crash, Looping):
+        except (Crash, Looping, KeyboardInterrupt):
             rec[2] = ['crash']
             raise
         except BaseException as e:
@@ -305,8 +311,12 @@ class Shim:
                 if flags & (os.O_CREAT | os.O_TRUNC) or (flags & (os.O_WRONLY | os.O_RDWR) and flags & os.O_APPEND):
                     S.mutation('open')
                 if dir_fd is None:
-                    return O['os.open'](path, flags, mode)
-                return O['os.open'](path, flags, mode, dir_fd=dir_fd)
+                    r = O['os.open'](path, flags, mode)
+                else:
+                    r = O['os.open'](path, flags, mode, dir_fd=dir_fd)
+                if flags & (os.O_CREAT | os.O_TRUNC):
+                    S.after_mutation()
+                return r
             if S.from_trashcli():
                 return S.lib('open', [path, flags, mode], real)
             return real()
@@ -315,7 +325,9 @@ class Shim:
         def os_write(fd, data):
             def real():
                 S.mutation('write')
-                return O['os.write'](fd, data)
+                r = O['os.write'](fd, data)
+                S.after_mutation()
+                return r
             if S.from_trashcli():
                 return S.lib('write', [bytes(data)], real)
             return real()
@@ -354,7 +366,9 @@ class Shim:
                             S.mutation(name)
                             raise OSError(_errno.EBUSY, os.strerror(_errno.EBUSY), p)
                     S.mutation(name)
-                    return orig(*a, **kw)
+                    r = orig(*a, **kw)
+                    S.after_mutation()
+                    return r
                 if S.from_trashcli() and name in ('remove', 'unlink', 'rename', 'mkdir', 'rmdir', 'symlink', 'chmod'):
                     return S.lib(name, [x for x in a], real)
                 return real()
